@@ -32,12 +32,14 @@ def gen(rng, n_cases, algos=None, gens=(2, 5)):
         xu = np.where(xu - xl < 1e-6, xl + 1.0, xu)     # runs need room to move; degenerate ranges are C01's business
         cfg = {"algo": algo, "sel": sel, "y": y, "cross": ["bin", "exp"][rng.randint(2)],
                "CR": float(rng.choice([0.0, 0.2, 0.5, 0.9, 1.0])), "Fcfg": [None, 0.5, (0.3, 1.0), 1.5][rng.randint(4)],
-               "gamma": [None, 1e-4, 1.0][rng.randint(3)], "repair": comp_surv_repairs()[rng.randint(4)],
+               "gamma": [None, 1e-4, 1.0, 0.0][rng.randint(4)], "repair": comp_surv_repairs()[rng.randint(4)],
                "pop_size": pop_size, "n_off": None if rng.randint(3) else int(rng.randint(2, pop_size + 4)),
                "metric": metric, "surv_cls": ["rnc", "constr", "default"][rng.randint(3)],
                "n_var": n_var, "n_obj": n_obj, "n_ieq": n_ieq, "n_eq": n_eq, "xl": xl, "xu": xu,
                # history: one generation advanced by tell(infills) with user-made infills and no ask() before it
                "tell_only": int(rng.randint(2, 5)) if rng.randint(4) == 0 else 0,
+               # documented constructor flag of the DE family (non-default value)
+               "adv_init": bool(rng.randint(4) != 0),
                "pseed": int(rng.randint(1000)), "grid": [None, None, 0.25, 0.1][rng.randint(4)],
                "shift": float(rng.choice([-1.0, -0.3, 0.0, 0.0, 0.5, 3.0])),
                "pm": bool(rng.randint(5) == 0), "n_gen": int(rng.randint(gens[0], gens[1] + 1)),
@@ -72,6 +74,8 @@ def make_algorithm(c, prob):
     if c["pm"]:
         kw["genetic_mutation"] = PM(prob=0.3, eta=15)
     a = c["algo"]
+    if not c.get("adv_init", True) and a in ("de", "nsde", "gde3", "nsder"):
+        kw["advance_after_initial_infill"] = False
 
     def surv():
         if c["surv_cls"] == "constr":
